@@ -3,6 +3,7 @@ package main
 import (
 	"bytes"
 	"encoding/json"
+	"fmt"
 	"math/rand"
 	"regexp"
 	"time"
@@ -232,6 +233,9 @@ func init() {
 			Models: []gcsModel{{Module: "MC_GcsConds", Quick: map[string]string{"WithBad": "TRUE"}, Thorough: map[string]string{"WithBad": "TRUE"},
 				SampleQ: "5", SampleT: "1", Invariants: []string{"InvGen"}, Properties: []string{"FailedIsNoop", "CondLaw"}}},
 			Gen: func(r *rand.Rand) []gcs.Op {
+				if r.Intn(6) == 0 {
+					return genStalePatchProgram(r)
+				}
 				return genGcsProgram(r, gcsProfile{fileSafe: true, n: 24, pCond: 0.6, wUpload: 3, wResum: 1, wPatch: 2, wDelete: 1.5, wRead: 0.5, wCompose: 1, wCopy: 0.2, fewNames: 3, maxResum: 20, wBatch: 0.8})
 			}, NRandQ: 50, NRandT: 6000})
 	}
@@ -296,6 +300,41 @@ func genComposeChain(r *rand.Rand) []gcs.Op {
 		default:
 			prog = append(prog, gcs.Op{Ev: "GetMedia", B: b, N: j.S(names[g.pick(len(names))]), Form: "api"})
 		}
+	}
+	return prog
+}
+
+// genStalePatchProgram: an object patched a few times (metageneration 3 or 4), then patches whose BODY carries a whole,
+// stale object resource (generation 1, metageneration 1, ...) together with a precondition on the metageneration or
+// generation: the condition is judged against the stored object, never against what the body says.
+func genStalePatchProgram(r *rand.Rand) []gcs.Op {
+	g := ggen{r: r, names: []string{"a.txt"}}
+	b, n := gcsBuckets[0], j.S("a.txt")
+	nc := gcs.NoConds()
+	prog := []gcs.Op{{Ev: "CreateBucket", B: b},
+		{Ev: "Upload", B: b, N: n, Proto: "media", Content: j.S("v1"), Decl: "none", Attrs: []gcs.KV{{K: "ct", V: j.S("text/plain")}}, Conds: nc}}
+	for i := 0; i < 2+g.pick(2); i++ {
+		prog = append(prog, gcs.Op{Ev: "Patch", B: b, N: n, Meta: []gcs.KVB{{K: j.S("k"), V: j.S(fmt.Sprint(i))}}, Conds: nc})
+	}
+	cond := func(which string, c gcs.Cond) gcs.Conds {
+		x := gcs.NoConds()
+		switch which {
+		case "mm":
+			x.Mm = c
+		case "mnm":
+			x.Mnm = c
+		case "gm":
+			x.Gm = c
+		default:
+			x.Gnm = c
+		}
+		return x
+	}
+	cases := []gcs.Conds{cond("mm", gcs.Cond{K: "val", Sym: "cur"}), cond("mm", gcs.Cond{K: "val", Sym: "lit", V: 1}), cond("mnm", gcs.Cond{K: "val", Sym: "lit", V: 1}),
+		cond("mnm", gcs.Cond{K: "val", Sym: "cur"}), cond("gm", gcs.Cond{K: "val", Sym: "cur"}), cond("gnm", gcs.Cond{K: "val", Sym: "cur"})}
+	r.Shuffle(len(cases), func(a, c int) { cases[a], cases[c] = cases[c], cases[a] })
+	for i, cs := range cases {
+		prog = append(prog, gcs.Op{Ev: "Patch", B: b, N: n, Meta: []gcs.KVB{{K: j.S("s"), V: j.S(fmt.Sprint(i))}}, Conds: cs, Junk: true})
 	}
 	return prog
 }
